@@ -147,8 +147,60 @@ def run_impl(c):
     out = {"kind": type(M).__name__, "terms": C.jterms(C.enc_terms(M)), "nvars": P.num_binary_variables, "checks": []}
     if c["cls"] == "GraphPartitioning":
         out["v2i"] = [[C.enc(v), i] for v, i in P._vertex_to_index.items()]
-    out["checks"] = check(c, P, M) + check_other_form(c, P, M)
+    out["checks"] = check(c, P, M) + check_other_form(c, P, M) + check_bruteforce_kw(c, P)
     return out
+
+
+def _canon(x):
+    """decoded solutions (sets, tuples of sets, lists, arrays) as comparable values"""
+    if isinstance(x, (set, frozenset)):
+        return ("set",) + tuple(sorted((_canon(y) for y in x), key=repr))
+    if isinstance(x, dict):
+        return ("dict",) + tuple(sorted(((_canon(k), _canon(v)) for k, v in x.items()), key=repr))
+    if isinstance(x, (list, tuple)) or hasattr(x, "tolist"):
+        return ("seq",) + tuple(_canon(y) for y in (x.tolist() if hasattr(x, "tolist") else x))
+    return repr(C.toF(x)) if isinstance(x, (int, float, F)) and not isinstance(x, bool) else repr(x)
+
+
+def check_bruteforce_kw(c, P):
+    """Problem.solve_bruteforce(**options) solves the formulation built with those options: its answers are the decoded
+    minimisers of to_qubo(**options), for the case's own weights and for a skewed (inadmissible) setting given by keyword"""
+    import qubovert as qv
+    cls = c["cls"]
+    if cls in ("SetCover", "JobSequencing") or P.num_binary_variables > 12:
+        return []
+    settings = [weights_kw(c)]
+    if cls in ("VertexCover", "BILP", "GraphPartitioning"):
+        settings.append({"A": F(1, 4), "B": 2})
+        settings.append({"B": 3})
+    if cls == "AlternatingSectorsChain":
+        settings.append({"pbc": not c["pbc"]})
+    v = []
+    for kw in settings:
+        try:
+            Q = P.to_qubo(**kw)
+            n = P.num_binary_variables
+            qi = [(k, C.toF(val)) for k, val in Q.items()]
+            best, mins = None, []
+            for bits in itertools.product((0, 1), repeat=n):       # every variable, also those Q does not depend on
+                e = sum((val for k, val in qi if all(bits[i] for i in k)), F(0))
+                if best is None or e < best:
+                    best, mins = e, [bits]
+                elif e == best:
+                    mins.append(bits)
+            want = {_canon(P.convert_solution(dict(enumerate(b)))) for b in mins}
+            got_all = P.solve_bruteforce(all_solutions=True, **kw)
+            got_one = P.solve_bruteforce(**kw)
+        except (KeyError, ValueError, TypeError, ZeroDivisionError) as ex:
+            v.append("%s.solve_bruteforce(%r) raised %s" % (cls, kw, type(ex).__name__))
+            continue
+        if {_canon(g) for g in got_all} != want:
+            v.append("%s.solve_bruteforce(all_solutions=True, %s) returned %d answers that are not the decoded minimisers of to_qubo(%s)"
+                     % (cls, ", ".join("%s=%s" % kv for kv in kw.items()), len(got_all), ", ".join("%s=%s" % kv for kv in kw.items())))
+        elif _canon(got_one) not in want:
+            v.append("%s.solve_bruteforce(%s) returned %r, not a decoded minimiser of to_qubo with the same options"
+                     % (cls, ", ".join("%s=%s" % kv for kv in kw.items()), got_one))
+    return v
 
 
 def check_other_form(c, P, M):
